@@ -1294,6 +1294,15 @@ class ExtendNode(ViewRepresentation):
                                 + str(opk)
                                 + "' term is too complex an expression"
                             )
+                if (opk.inline or hasattr(data_algebra.expr_rep.Term, opk.op)) and (
+                    opk.op
+                    not in data_algebra.expr_rep.fn_names_of_window_functions
+                ):
+                    # an operator or a row-wise method (x + 1, abs ...) is not computed over a window
+                    raise ValueError(
+                        str(opk)
+                        + "' is not a window function, not allowed in a windowed situation"
+                    )
                 if windowed_situation and (
                     opk.op
                     in data_algebra.expr_rep.fn_names_that_contradict_windowed_situation
@@ -1541,6 +1550,14 @@ class ProjectNode(ViewRepresentation):
                     raise ValueError(str(opk) + "' is not allowed in project")
                 if opk.op in data_algebra.expr_rep.fn_names_not_allowed_in_project:
                     raise ValueError(str(opk) + "' is not allowed in project")
+                if (opk.inline or hasattr(data_algebra.expr_rep.Term, opk.op)) and (
+                    opk.op
+                    not in data_algebra.expr_rep.fn_names_that_contradict_ordered_windowed_situation
+                ):
+                    # an operator or a row-wise method (-x, abs, is_null, round ...): SQL would return one row per input row
+                    raise ValueError(
+                        str(opk) + "' is not an aggregation, not allowed in project"
+                    )
             else:
                 raise ValueError(
                     "non-aggregated expression in project: " + str(k) + ": " + str(opk)
